@@ -33,5 +33,5 @@ def main(argv=None):
 
 
 if __name__ == "__main__":
-    sys.stdout.reconfigure(line_buffering=True)
+    sys.stdout.reconfigure(line_buffering=True, errors="backslashreplace")
     sys.exit(main())
